@@ -171,6 +171,45 @@ CLAIMED["C02"] = dict(
     design="DESIGN.md section 3, C02",
 )
 
+CLAIMED["C03"] = dict(
+    category="other",
+    technique="static intraprocedural taint (binding-precise) on the swc AST from the `input` parameter to throwing sinks and mutation sites; facade shape matching; sibling-branch agreement",
+    text=("Decides, for all inputs, necessary conditions of 'entry points agree, nothing throws, input untouched': parse returns "
+          "safeParse(..).data only under success and otherwise throws an Error; safeParse branches on validate(input) and parses "
+          "/ reports on the matching branch with the same strictness; no value derived from the input reaches a dictionary "
+          "lookup or `in` test on a plain-object field (prototype keys) or a JSON.stringify outside try/catch (bigint, cycles) "
+          "in any validate / parseAfterValidation / reportDecodeError or in the error helpers; explicit throws are the three "
+          "reviewed post-validation ones; no assignment/delete/mutator call is rooted at an input-derived object; the two "
+          "objectKeyOrder branches use the same membership test. The rules found three defect families (10 sites), all "
+          "repaired by fix: commits."),
+    note=("Trusted: swc AST, declared Record<..> annotations, the taint model (no inter-procedural flow beyond the listed "
+          "helpers). Not decided: re-validation / idempotence of parsed output, leaf preservation through deepmerge."),
+    design="DESIGN.md section 3, C03",
+)
+CLAIMED["C11"] = dict(
+    category="other",
+    technique="static flow rules on the swc AST: context-argument threading at every child call, closed reader set of the strictness flag with branch/operand shape, conjunctive-delegation detection",
+    text=("Decides how the strictness flag can flow: all 60 child calls of validate/parseAfterValidation/reportDecodeError "
+          "pass the method's own ctx identifier; contexts are built only by the facade; the flag is read only by the object "
+          "class, in its no-index-signature branch, comparing Object.keys(input) with its own declared keys; a class that "
+          "requires all of several children on the same input while forwarding the flag unchanged is reported (1 known "
+          "finding: intersections of named object types reject everything in strict mode)."),
+    note="Trusted: swc AST. Not decided: the equivalence `strict accepts <=> default accepts and no undeclared key` itself.",
+    design="DESIGN.md section 3, C11",
+)
+CLAIMED["C12"] = dict(
+    category="other",
+    technique="static rules on the swc AST: literal bound at the slice site, validator/reporter test-kind parity per class, push/pop pairing, taint to JSON.stringify in error helpers",
+    text=("Decides presence/boundedness/path-shape conditions for every rejected value: the facade slices the error list with a "
+          "literal bound <= 10; per class every kind of rejection test in validate() reappears in reportDecodeError() or the "
+          "reporter ends in an unconditional error (found: surplus tuple items - fixed; intersections of non-object types - "
+          "known finding); pushPath/popPath pair up without an intervening return and the value reported under key k is "
+          "input[k]; the union reporter restores ctx.path; error building/rendering never stringifies received values "
+          "outside try/catch."),
+    note="Trusted: swc AST; the atom vocabulary of rejection tests. Not decided: union filtering by depth, determinism of rendering.",
+    design="DESIGN.md section 3, C12",
+)
+
 NOT_APPLICABLE_REASON = {}
 
 
